@@ -54,23 +54,51 @@ class MetaSim(mosaik_api_v3.Simulator):
 SIM_CONFIG = {"Meta": {"python": "mvf.simple_sim:MetaSim"}}
 
 
-def quiet_world(**kw):
-    """World without greeting, progress bars and log noise; fresh loop."""
-    import asyncio
+def quiet_world(sim_config=None, **kw):
+    """World without greeting, progress bars and log noise, on a guarded loop: the harness selector turns an
+    idle loop with nothing to wait for (a deadlocked run) into HarnessAbort instead of blocking forever, and
+    the virtual clock makes stop() time-outs free."""
     import mosaik
     from loguru import logger
+    from mvf import harness
     logger.remove()
-    loop = asyncio.new_event_loop()
-    w = mosaik.World(SIM_CONFIG, skip_greetings=True, asyncio_loop=loop, **kw)
+    ctl = harness.Controller({})
+    sel = harness.ControlSelector()
+    sel.ctl = ctl
+    loop = harness.VirtualLoop(sel, ctl)
+    w = mosaik.World(sim_config or SIM_CONFIG, skip_greetings=True, asyncio_loop=loop, **kw)
+    w._mvf_ctl = ctl
     return w
+
+
+def guarded_run(w, **kw):
+    """world.run under the guarded loop; a deadlock / busy spin raises harness.HarnessAbort"""
+    ctl = w._mvf_ctl
+    orig_shutdown = w.shutdown
+
+    def shutdown_wrapper():
+        if ctl.mode == "run":
+            ctl.mode = "shutdown"
+        return orig_shutdown()
+    w.shutdown = shutdown_wrapper
+    ctl.mode = "run"
+    try:
+        return w.run(**kw)
+    finally:
+        ctl.mode = "off"
 
 
 def close_world(w):
     try:
         if not w.loop.is_closed():
             w.shutdown()
-    except Exception:  # noqa
-        try:
+    except BaseException:  # noqa
+        pass
+    try:
+        if not w.loop.is_closed():
+            import asyncio
+            for t in asyncio.all_tasks(w.loop):
+                t.cancel()
             w.loop.close()
-        except Exception:  # noqa
-            pass
+    except BaseException:  # noqa
+        pass
